@@ -189,7 +189,10 @@ class _Worker:
             pass
         try:
             with open(self.errpath, 'rb') as f:
-                return f.read()[-200000:].decode('latin-1')
+                data = f.read()
+            if len(data) > 260000:
+                data = data[:60000] + b'\n...<cut>...\n' + data[-200000:]
+            return data.decode('latin-1')
         except OSError:
             return ''
 
@@ -440,7 +443,7 @@ class Check:
                 return
         self.violations.append((key, desc, replay))
 
-    def death_is_violation(self, death, case_desc, replay, sig_prefix=''):
+    def death_is_violation(self, death, case_desc, replay, sig_prefix='', sig_suffix=''):
         """Route a worker death through known-finding signatures. Returns True if it was recorded (either way)."""
         kind = death['kind']
         if kind == 'inconclusive' or kind == 'wall-timeout':
@@ -451,7 +454,7 @@ class Check:
         else:
             san = death.get('san')
             if san:
-                sig = san['sig']
+                sig = san['sig'] + (('|' + sig_suffix) if sig_suffix else '')
             else:
                 sig = 'died|rc=%s|%s' % (death.get('rc'), sig_prefix)
         death['sig'] = sig
@@ -521,3 +524,88 @@ class Check:
             self.prop, self.tier, self.evaluations, len(self.signatures), self.inconclusive, len(self.violations), len(self.known_hits), wall,
             json.dumps(self.counters, sort_keys=True)))
         return rc
+
+
+# ----------------------------------------------------------------------------------------------
+# batched execution with per-item attribution
+
+def run_items(runner, prefix_steps, items, batch=25, base_cpu_ms=4000, item_cpu_ms=None, counters=None):
+    """items: list of step lists. Items are run `batch` at a time behind `prefix_steps` (one case each batch,
+    with the step journal on). A batch whose worker dies is split: the item that was executing is re-run
+    alone (fresh VM) and judged by that run; the items before and after it are re-run in new batches.
+    Returns a list aligned with items: list of that item's step results, or a Death.
+    A Death carries 'seq_only': True when the item only failed after its batch predecessors."""
+    n = len(items)
+    out = [None] * n
+    npre = len(prefix_steps)
+
+    def cpu(idx_list):
+        t = base_cpu_ms
+        for i in idx_list:
+            t += item_cpu_ms(items[i]) if item_cpu_ms else 400
+        return int(t)
+
+    def mk(idx_list):
+        steps = list(prefix_steps)
+        for i in idx_list:
+            steps += items[i]
+        return {'steps': steps, 'cpu_ms': cpu(idx_list), 'journal_steps': True}
+
+    groups = [list(range(i, min(n, i + batch))) for i in range(0, n, batch)]
+    suspects = []  # (item index, death in batch)
+    rounds = 0
+    while groups:
+        rounds += 1
+        if rounds > 60:
+            raise HarnessError('run_items: batches keep dying')
+        t_round = time.time()
+        results = runner.run([mk(g) for g in groups])
+        if os.environ.get('VERIF_DEBUG'):
+            sys.stderr.write('run_items round %d: %d groups, %d items, %d deaths, %.1fs\n' % (rounds, len(groups), sum(len(g) for g in groups), sum(1 for r in results if isinstance(r, Death)), time.time() - t_round))
+        nxt = []
+        for g, r in zip(groups, results):
+            if isinstance(r, Death):
+                k = r.get('step')
+                j = None
+                if k is not None and k >= npre:
+                    acc = npre
+                    for pos, i in enumerate(g):
+                        acc += len(items[i])
+                        if k < acc:
+                            j = pos
+                            break
+                if j is None:
+                    if len(g) == 1:
+                        out[g[0]] = r
+                    else:
+                        h = len(g) // 2
+                        nxt.append(g[:h])
+                        nxt.append(g[h:])
+                    continue
+                if len(g) == 1:
+                    out[g[0]] = r
+                    continue
+                suspects.append((g[j], r))
+                if g[:j]:
+                    nxt.append(g[:j])
+                if g[j + 1:]:
+                    nxt.append(g[j + 1:])
+                if counters is not None:
+                    counters['batch_deaths'] = counters.get('batch_deaths', 0) + 1
+                continue
+            pos = npre
+            res = r['res']
+            for i in g:
+                out[i] = res[pos:pos + len(items[i])]
+                pos += len(items[i])
+        groups = nxt
+    if suspects:
+        results = runner.run([mk([i]) for i, _ in suspects])
+        for (i, first), r in zip(suspects, results):
+            if isinstance(r, Death):
+                out[i] = r
+            else:
+                d = Death(first)
+                d['seq_only'] = True
+                out[i] = d
+    return out
